@@ -452,6 +452,12 @@ pub fn start_senders(w: &Rc<World>, plan: &Rc<Plan>, sink: v3::MqttSink) {
                 if cb_sends {
                     let r = s.publish(ByteString::from_static("cb/q0")).send_at_most_once(Bytes::from_static(b"cb"));
                     w.probe(if r.is_ok() { "cb_send_ok" } else { "cb_send_err" });
+                    // ... and refills the window like a pipeline would: a non-blocking QoS 1 send from inside the
+                    // callback (at most two per run: each of them is acknowledged into this callback again)
+                    if !disc && s.is_ready() && w.cb_refill() {
+                        let r = s.publish(ByteString::from_static("cb/q1")).send_at_least_once_no_block(Bytes::from_static(b"cb"));
+                        w.probe(if r.is_ok() { "cb_refill_ok" } else { "cb_refill_err" });
+                    }
                 }
             }
             w.ack_cb(pid.get(), 0, 0, disc)
